@@ -537,20 +537,26 @@ Section Exact.
   Lemma ceq_with_depth (m : mdd) c : ceq m (with_depth m c).
   Proof. ceq_triv. Qed.
 
-  (* closed nodes (below m_layer_end) keep their core *)
+  (* closed nodes (below m_layer_end) keep their core; state and depth of a node never change *)
   Definition stable (m m' : mdd) : Prop :=
     m_layer_end m' = m_layer_end m /\ length (m_nodes m) <= length (m_nodes m') /\
-    forall id, id < m_layer_end m -> core_eq (gn m id) (gn m' id).
+    (forall id, id < m_layer_end m -> core_eq (gn m id) (gn m' id)) /\
+    (forall id, id < length (m_nodes m) ->
+       n_state (gn m' id) = n_state (gn m id) /\ n_depth (gn m' id) = n_depth (gn m id)).
   Lemma stable_refl m : stable m m.
   Proof. repeat split; auto. Qed.
   Lemma stable_trans m1 m2 m3 : stable m1 m2 -> stable m2 m3 -> stable m1 m3.
   Proof.
-    intros (A & B & C) (A' & B' & C'). split; [congruence|]. split; [lia|].
-    intros id Hid. eapply core_eq_trans; [apply C; exact Hid|apply C'; rewrite A; exact Hid].
+    intros (A & B & C & D) (A' & B' & C' & D'). split; [congruence|]. split; [lia|]. split.
+    - intros id Hid. eapply core_eq_trans; [apply C; exact Hid|apply C'; rewrite A; exact Hid].
+    - intros id Hid. destruct (D id Hid) as [d1 d2]. destruct (D' id) as [d1' d2']; [lia|].
+      split; congruence.
   Qed.
   Lemma ceq_stable m m' : ceq m m' -> stable m m'.
   Proof.
-    intros ((A1 & A2 & A3 & A4) & _ & Hl & _). split; [exact Hl|]. split; [lia|]. intros id _. apply A4.
+    intros ((A1 & A2 & A3 & A4) & _ & Hl & _). split; [exact Hl|]. split; [lia|]. split.
+    - intros id _. apply A4.
+    - intros id _. destruct (A4 id) as (c1 & c2 & c3 & c4 & c5 & c6 & c7). split; congruence.
   Qed.
 
   (* ================================================================== 5. preservation *)
@@ -649,9 +655,12 @@ Section Exact.
   Lemma append_edge_stable (m : mdd) e :
     m_layer_end m <= e_to e -> stable m (append_edge inp m e).
   Proof.
-    intros Hto. split; [reflexivity|]. split.
+    intros Hto. split; [reflexivity|]. split; [|split].
     - msimpl. rewrite upd_nth_length. lia.
     - intros id Hid. rewrite gn_append_other by lia. apply core_eq_refl.
+    - intros id Hid. destruct (Nat.eq_dec id (e_to e)) as [->|Hne].
+      + rewrite gn_append_same by exact Hid. split; reflexivity.
+      + rewrite gn_append_other by exact Hne. split; reflexivity.
   Qed.
   (* ---------------------------------------------------------------- the extra invariant
      (empty cutset during compilation; nodes are exact-flagged as long as nothing was squashed /
@@ -764,8 +773,9 @@ Section Exact.
   Lemma snoc_node_stable (m : mdd) n :
     m_layer_end m <= length (m_nodes m) -> stable m (with_nodes m (m_nodes m ++ [n])).
   Proof.
-    intros Hle. split; [reflexivity|]. split; [rewrite len_snoc; lia|].
-    intros id Hid. rewrite gn_snoc_old by lia. apply core_eq_refl.
+    intros Hle. split; [reflexivity|]. split; [rewrite len_snoc; lia|]. split.
+    - intros id Hid. rewrite gn_snoc_old by lia. apply core_eq_refl.
+    - intros id Hid. rewrite gn_snoc_old by lia. split; reflexivity.
   Qed.
 
   (* ---------------------------------------------------------------- branch_on *)
@@ -801,19 +811,22 @@ Section Exact.
       set (e := {| e_from := from_id; e_to := t; e_dec := d; e_cost := cost |}).
       pose proof (D_nodes _ _ HD1 t (proj2 Hrange) I) as [Hinb Hbest].
       split; [|split; [|split]].
-      + apply append_edge_Dg; nsimpl; auto; try lia.
-        * eapply Dg_weaken; [|exact HD1]. auto.
-        * intros Hr. specialize (Hbest Hr). rewrite !Hgn1. rewrite Heq.
+      + apply append_edge_Dg; unfold e; nsimpl.
+        * eapply Dg_weaken; [|exact HD1]. intros; exact I.
+        * exact Hfrom.
+        * lia.
+        * lia.
+        * exact Hinb.
+        * intros Hr. specialize (Hbest Hr). rewrite !Hgn1. rewrite Hgn1 in Heq. rewrite Heq.
           repeat split; auto.
-          -- apply Hnd. exact Hin.
-          -- rewrite Hgn1 in Hbest. destruct (n_best (gn m t)); auto.
-             exfalso. change (m_layer_end m1) with (m_layer_end m) in Hrange. lia.
-      + apply append_edge_Xinv; nsimpl; auto; lia.
-      + eapply stable_trans; [apply ceq_stable; exact Hc1|]. apply append_edge_stable. nsimpl. lia.
+          rewrite Hgn1 in Hbest. destruct (n_best (gn m t)); auto.
+          exfalso. change (m_layer_end m1) with (m_layer_end m) in Hrange. lia.
+      + apply append_edge_Xinv; unfold e; nsimpl; auto; lia.
+      + eapply stable_trans; [apply ceq_stable; exact Hc1|]. apply append_edge_stable. unfold e; nsimpl. lia.
       + intros id Hid. change (In id (m_next m)) in Hid.
         destruct (Nat.eq_dec id t) as [->|Hne].
-        * rewrite gn_append_same by (nsimpl; lia). cbv zeta. nsimpl. rewrite Hgn1. apply Hnd; exact Hid.
-        * rewrite gn_append_other by (nsimpl; exact Hne). rewrite Hgn1. apply Hnd; exact Hid.
+        * rewrite gn_append_same by (unfold e; nsimpl; lia). cbv zeta. nsimpl. rewrite Hgn1. apply Hnd; exact Hid.
+        * rewrite gn_append_other by (unfold e; nsimpl; exact Hne). rewrite Hgn1. apply Hnd; exact Hid.
     - (* a fresh node *)
       set (t := length (m_nodes m1)).
       set (n := {| n_state := ns; n_vtop := sat_add (n_vtop (gn m from_id)) cost; n_vbot := IMIN;
@@ -836,22 +849,22 @@ Section Exact.
         - apply (X_exact_nr _ HX Hor). exact Hfromlen.
         - apply (X_lel_none _ HX Hor). exact Hfromlen. }
       assert (HD3 : Dinv m3).
-      { apply append_edge_Dg; nsimpl; auto; try lia.
+      { apply append_edge_Dg; unfold e; nsimpl; auto; try lia.
         - intros x. rewrite Hgn2new. simpl. tauto.
         - intros _. rewrite Hgn2new. rewrite Hgn2old by (change (m_layer_end m1) with (m_layer_end m) in Hle1; lia).
           unfold n. nsimpl. repeat split; auto. lia. }
       assert (HX3 : Xinv m3).
-      { apply append_edge_Xinv; nsimpl; auto; lia. }
+      { apply append_edge_Xinv; unfold e; nsimpl; auto; lia. }
       assert (Hst3 : stable m m3).
       { eapply stable_trans; [apply ceq_stable; exact Hc1|].
         eapply stable_trans; [apply snoc_node_stable; exact Hle1|].
-        apply append_edge_stable. nsimpl. exact Hle1. }
+        apply append_edge_stable. unfold e; nsimpl. exact Hle1. }
       assert (Hlen3 : length (m_nodes m3) = S t).
       { unfold m3. msimpl. rewrite upd_nth_length. exact Hlen2. }
       assert (Hp : peq m3 (with_next m3 (m_next m3 ++ [t]))) by (apply peq_same_nodes; reflexivity).
       split; [|split; [|split]].
       + eapply Dg_peq; [exact Hp|exact HD3| | |].
-        * lia.
+        * apply Nat.le_refl.
         * apply (D_le _ _ HD3).
         * intros id Hid. change (In id (m_next m ++ [t])) in Hid. apply in_app_or in Hid.
           change (m_layer_end (with_next m3 (m_next m3 ++ [t]))) with (m_layer_end m).
@@ -860,17 +873,412 @@ Section Exact.
           destruct Hid as [Hid|[<-|[]]]; [|lia].
           pose proof (D_next _ _ HD id Hid). change (length (m_nodes m1)) with (length (m_nodes m)) in t. lia.
       + destruct HX3 as [X1 X2 X3 X4 X5 X6]. split; auto.
-      + destruct Hst3 as (s1 & s2 & s3). split; [exact s1|]. split; [exact s2|exact s3].
+      + destruct Hst3 as (s1 & s2 & s3 & s4). split; [exact s1|]. split; [exact s2|]. split; [exact s3|exact s4].
       + intros id Hid. change (In id (m_next m ++ [t])) in Hid. apply in_app_or in Hid.
         change (gn (with_next m3 (m_next m3 ++ [t])) id) with (gn m3 id).
         destruct Hid as [Hid|[<-|[]]].
         * pose proof (D_next _ _ HD id Hid) as Hr.
           assert (Hne : id <> t) by (unfold t; change (length (m_nodes m1)) with (length (m_nodes m)); lia).
-          unfold m3. rewrite gn_append_other by (nsimpl; exact Hne).
+          unfold m3. rewrite gn_append_other by (unfold e; nsimpl; exact Hne).
           rewrite Hgn2old by (unfold t; change (length (m_nodes m1)) with (length (m_nodes m)); lia).
           apply Hnd; exact Hid.
-        * unfold m3. change t with (e_to e). rewrite gn_append_same by (nsimpl; lia).
-          cbv zeta. nsimpl. rewrite Hgn2new. reflexivity.
+        * unfold m3. change t with (e_to e). rewrite gn_append_same by (unfold e; nsimpl; lia).
+          cbv zeta. nsimpl. change (e_to e) with t. rewrite Hgn2new. reflexivity.
   Qed.
-(*PART5*)
+  (* ---------------------------------------------------------------- expand_node *)
+  Lemma in_domain_of_In var val s : In val (domain pb var s) -> in_domain pb s {| d_var := var; d_val := val |} = true.
+  Proof.
+    intros H. unfold in_domain. simpl. apply existsb_exists. exists val. split; [exact H|apply Z.eqb_refl].
+  Qed.
+
+  Lemma expand_node_inv (var : nat) (m : mdd) (id : nat) :
+    Dinv m -> Xinv m -> id < m_layer_end m -> next_depth (S (n_depth (gn m id))) m ->
+    Dinv (expand_node st_eqb inp var m id) /\ Xinv (expand_node st_eqb inp var m id) /\
+    stable m (expand_node st_eqb inp var m id) /\
+    next_depth (S (n_depth (gn m id))) (expand_node st_eqb inp var m id).
+  Proof.
+    intros HD HX Hid Hnd. unfold expand_node. cbv zeta.
+    set (state := n_state (gn m id)).
+    set (m1 := upd_node m id (fun n => set_rub n (fast_upper_bound (ci_relax inp) state))).
+    assert (Hc1 : ceq m m1) by (apply ceq_upd_node; intros n; apply core_eq_set_rub).
+    assert (HD1 : Dinv m1) by (eapply Dg_ceq; eauto).
+    assert (HX1 : Xinv m1) by (eapply Xinv_ceq; eauto).
+    assert (Hst1 : stable m m1) by (apply ceq_stable; exact Hc1).
+    assert (Hidlen : id < length (m_nodes m)) by (pose proof (D_le _ _ HD); lia).
+    assert (Hnd1 : next_depth (S (n_depth (gn m id))) m1).
+    { intros k Hk. change (In k (m_next m)) in Hk.
+      destruct Hc1 as ((_ & _ & _ & A4) & _). destruct (A4 k) as (_ & _ & _ & _ & _ & _ & c7).
+      rewrite <- c7. apply Hnd; exact Hk. }
+    destruct (sat_add (fast_upper_bound (ci_relax inp) state) (n_vtop (gn m1 id)) >? ci_best_lb inp)%Z.
+    2: { auto. }
+    set (m2 := add_log m1 (EvDomain var state)).
+    assert (Hc2 : ceq m1 m2) by apply ceq_add_log.
+    assert (HD2 : Dinv m2) by (eapply Dg_ceq; eauto).
+    assert (HX2 : Xinv m2) by (eapply Xinv_ceq; eauto).
+    assert (Hst2 : stable m m2) by (eapply stable_trans; [exact Hst1|apply ceq_stable; exact Hc2]).
+    assert (Hnd2 : next_depth (S (n_depth (gn m id))) m2) by exact Hnd1.
+    apply (fold_left_inv
+             (fun m' => Dinv m' /\ Xinv m' /\ stable m m' /\ next_depth (S (n_depth (gn m id))) m')).
+    - auto.
+    - intros a val Hval (Ha1 & Ha2 & Ha3 & Ha4).
+      pose proof Ha3 as (s1 & s2 & s3 & s4).
+      destruct (s4 id Hidlen) as [Hs Hdp].
+      assert (Hida : id < m_layer_end a) by (rewrite s1; exact Hid).
+      destruct (branch_on_inv a id {| d_var := var; d_val := val |} Ha1 Ha2 Hida) as (B1 & B2 & B3 & B4).
+      + rewrite Hdp. exact Ha4.
+      + rewrite Hs. apply in_domain_of_In. exact Hval.
+      + split; [exact B1|]. split; [exact B2|]. split.
+        * eapply stable_trans; eauto.
+        * rewrite Hdp in B4. exact B4.
+  Qed.
+
+  Lemma expand_layer_inv (var : nat) (l : list nat) (d : nat) : forall (m : mdd),
+    Dinv m -> Xinv m -> next_depth (S d) m ->
+    (forall id, In id l -> id < m_layer_end m /\ n_depth (gn m id) = d) ->
+    Dinv (fold_left (expand_node st_eqb inp var) l m) /\ Xinv (fold_left (expand_node st_eqb inp var) l m) /\
+    stable m (fold_left (expand_node st_eqb inp var) l m) /\
+    next_depth (S d) (fold_left (expand_node st_eqb inp var) l m).
+  Proof.
+    intros m HD HX Hnd Hl.
+    apply (fold_left_inv (fun m' => Dinv m' /\ Xinv m' /\ stable m m' /\ next_depth (S d) m')).
+    - split; [exact HD|]. split; [exact HX|]. split; [apply stable_refl|exact Hnd].
+    - intros a id Hin (Ha1 & Ha2 & Ha3 & Ha4).
+      pose proof Ha3 as (s1 & s2 & s3 & s4).
+      destruct (Hl id Hin) as [Hlt Hdp].
+      assert (Hidlen : id < length (m_nodes m)) by (pose proof (D_le _ _ HD); lia).
+      destruct (s4 id Hidlen) as [_ Hdp'].
+      assert (Hd : n_depth (gn a id) = d) by congruence.
+      destruct (expand_node_inv var a id Ha1 Ha2) as (B1 & B2 & B3 & B4).
+      + rewrite s1; exact Hlt.
+      + rewrite Hd. exact Ha4.
+      + rewrite Hd in B4. split; [exact B1|]. split; [exact B2|]. split; [|exact B4].
+        eapply stable_trans; eauto.
+  Qed.
+
+  (* ---------------------------------------------------------------- the filters: core-neutral, return a sub-list *)
+  Lemma cache_get_ceq (m : mdd) s dp : ceq m (fst (cache_get st_eqb inp m s dp)).
+  Proof.
+    unfold cache_get. destruct (ci_use_cache inp).
+    - destruct (get_threshold st_eqb (m_cache (add_log m (EvCacheGet s dp))) s dp); simpl.
+      + apply ceq_add_log.
+      + eapply ceq_trans; [apply ceq_add_log|apply ceq_set_crash].
+    - simpl. apply ceq_add_log.
+  Qed.
+
+  Lemma cache_update_ceq (m : mdd) s dp v e : ceq m (cache_update st_eqb inp m s dp v e).
+  Proof.
+    unfold cache_update. destruct (ci_use_cache inp).
+    - destruct (update_threshold st_eqb (m_cache (add_log m (EvCacheUpd s dp v e))) s dp v e).
+      + eapply ceq_trans; [apply ceq_add_log|apply ceq_with_cache].
+      + eapply ceq_trans; [apply ceq_add_log|apply ceq_set_crash].
+    - apply ceq_add_log.
+  Qed.
+
+  Lemma dom_query_ceq (m : mdd) s dp v : ceq m (fst (dom_query inp m s dp v)).
+  Proof.
+    unfold dom_query. destruct (ci_domrule inp) as [[[[key nd] coord] usev]|].
+    - destruct (is_dominated_or_insert Z.eqb key nd coord usev (m_dom m) s dp v) as [[st' r]|]; simpl.
+      + eapply ceq_trans; [apply ceq_with_dom|apply ceq_add_log].
+      + eapply ceq_trans; [apply ceq_set_crash|apply ceq_add_log].
+    - simpl. apply ceq_add_log.
+  Qed.
+
+  Lemma filter_with_cache_ceq (l : list nat) : forall (m : mdd),
+    ceq m (fst (filter_with_cache st_eqb inp m l)) /\ incl (snd (filter_with_cache st_eqb inp m l)) l.
+  Proof.
+    induction l as [|id l IH]; intros m; simpl.
+    - split; [apply ceq_refl|apply incl_refl].
+    - pose proof (cache_get_ceq m (n_state (gn m id)) (n_depth (gn m id))) as Hc.
+      destruct (cache_get st_eqb inp m (n_state (gn m id)) (n_depth (gn m id))) as [m1 th]. simpl in Hc.
+      destruct th as [t|].
+      + destruct (n_vtop (gn m id) >? th_value t)%Z.
+        * destruct (IH m1) as [I1 I2]. destruct (filter_with_cache st_eqb inp m1 l) as [m2 r]. simpl in *.
+          split; [eapply ceq_trans; eauto|]. apply incl_cons; [left; reflexivity|apply incl_tl; exact I2].
+        * match goal with |- context [filter_with_cache st_eqb inp ?mm l] => destruct (IH mm) as [I1 I2] end.
+          split.
+          -- eapply ceq_trans; [exact Hc|]. eapply ceq_trans; [|exact I1].
+             apply ceq_upd_node. intros n.
+             eapply core_eq_trans; [|apply core_eq_set_theta]. apply core_eq_set_flags_nc; reflexivity.
+          -- apply incl_tl; exact I2.
+      + destruct (IH m1) as [I1 I2]. destruct (filter_with_cache st_eqb inp m1 l) as [m2 r]. simpl in *.
+        split; [eapply ceq_trans; eauto|]. apply incl_cons; [left; reflexivity|apply incl_tl; exact I2].
+  Qed.
+
+  Lemma dom_retain_ceq (l : list nat) : forall (m : mdd),
+    ceq m (fst (dom_retain inp m l)) /\ incl (snd (dom_retain inp m l)) l.
+  Proof.
+    induction l as [|id l IH]; intros m; simpl.
+    - split; [apply ceq_refl|apply incl_refl].
+    - destruct (fl_is_exact (n_flags (gn m id))).
+      + pose proof (dom_query_ceq m (n_state (gn m id)) (n_depth (gn m id)) (n_vtop (gn m id))) as Hc.
+        destruct (dom_query inp m (n_state (gn m id)) (n_depth (gn m id)) (n_vtop (gn m id))) as [m1 r].
+        simpl in Hc. destruct (dc_dominated r).
+        * match goal with |- context [dom_retain inp ?mm l] => destruct (IH mm) as [I1 I2] end.
+          split.
+          -- eapply ceq_trans; [exact Hc|]. eapply ceq_trans; [|exact I1].
+             apply ceq_upd_node. intros n. apply core_eq_set_theta.
+          -- apply incl_tl; exact I2.
+        * destruct (IH m1) as [I1 I2]. destruct (dom_retain inp m1 l) as [m2 k]. simpl in *.
+          split; [eapply ceq_trans; eauto|]. apply incl_cons; [left; reflexivity|apply incl_tl; exact I2].
+      + destruct (IH m) as [I1 I2]. destruct (dom_retain inp m l) as [m2 k]. simpl in *.
+        split; [exact I1|]. apply incl_cons; [left; reflexivity|apply incl_tl; exact I2].
+  Qed.
+
+  Lemma filter_with_dominance_ceq (m : mdd) (l : list nat) :
+    ceq m (fst (filter_with_dominance inp m l)) /\ incl (snd (filter_with_dominance inp m l)) l.
+  Proof.
+    unfold filter_with_dominance. destruct (dom_retain_ceq (sort_by (dom_order inp m) l) m) as [I1 I2].
+    split; [exact I1|]. intros x Hx. apply I2 in Hx. apply sort_by_In in Hx. exact Hx.
+  Qed.
+  (* ---------------------------------------------------------------- squash *)
+  Definition layer_ok (m : mdd) (l : list nat) (d : nat) : Prop :=
+    forall id, In id l -> (m_layer_end m <= id < length (m_nodes m)) /\ n_depth (gn m id) = d.
+
+  Lemma layer_ok_stable m m' l l' d :
+    stable m m' -> layer_ok m l d -> incl l' l -> layer_ok m' l' d.
+  Proof.
+    intros (s1 & s2 & s3 & s4) Hl Hincl id Hin. apply Hincl in Hin. destruct (Hl id Hin) as [Hr Hd].
+    destruct (s4 id) as [_ Hd']; [lia|]. rewrite s1. split; [lia|congruence].
+  Qed.
+
+  Lemma note_squash_fields (m : mdd) :
+    m_nodes (note_squash inp m) = m_nodes m /\ m_edges (note_squash inp m) = m_edges m /\
+    m_path (note_squash inp m) = m_path m /\ m_next (note_squash inp m) = m_next m /\
+    m_layer_end (note_squash inp m) = m_layer_end m /\ m_layers (note_squash inp m) = m_layers m /\
+    m_cutset (note_squash inp m) = m_cutset m /\
+    m_lel (note_squash inp m) =
+      match m_lel m with Some k => Some k | None => Some (length (m_layers m) - 1) end.
+  Proof.
+    unfold note_squash. cbv zeta. rewrite not_pooled. destruct (m_lel m) eqn:E; repeat split; auto.
+  Qed.
+
+  Lemma note_squash_inv (m : mdd) :
+    Dinv m -> Xinv m -> (ci_type inp = Relaxed -> m_layers m <> []) ->
+    Dinv (note_squash inp m) /\ Xinv (note_squash inp m) /\ stable m (note_squash inp m) /\
+    m_next (note_squash inp m) = m_next m /\ m_lel (note_squash inp m) <> None /\
+    forall k, gn (note_squash inp m) k = gn m k.
+  Proof.
+    intros HD HX Hly.
+    destruct (note_squash_fields m) as (F1 & F2 & F3 & F4 & F5 & F6 & F7 & F8).
+    assert (Hp : peq m (note_squash inp m)) by (apply peq_same_nodes; auto).
+    assert (Hgn : forall k, gn (note_squash inp m) k = gn m k) by (intros k; apply gn_nodes_eq; exact F1).
+    split; [|split; [|split; [|split; [|split]]]]; auto.
+    - eapply Dg_peq; eauto.
+      + rewrite F5; lia.
+      + rewrite F5, F1. apply (D_le _ _ HD).
+      + rewrite F5, F4, F1. apply (D_next _ _ HD).
+    - destruct HX as [X1 X2 X3 X4 X5 X6]. split.
+      + congruence.
+      + intros Ht id Hid. rewrite Hgn. apply X2; auto. rewrite <- F1. exact Hid.
+      + intros Hnone. rewrite F8 in Hnone. destruct (m_lel m); discriminate.
+      + intros Ht k Hk. rewrite F6. rewrite F8 in Hk. destruct (m_lel m) as [k0|] eqn:E.
+        * apply X4; auto.
+        * inversion Hk; subst. specialize (Hly Ht). destruct (m_layers m); [congruence|simpl; lia].
+      + intros ids id H1 H2. rewrite F5. rewrite F6 in H1. eapply X5; eauto.
+      + intros k ids id H1 H2 H3. rewrite Hgn. rewrite F6 in H2. rewrite F8 in H1.
+        destruct (m_lel m) as [k0|] eqn:E.
+        * eapply X6; eauto.
+        * apply X3; auto. pose proof (D_le _ _ HD).
+          assert (id < m_layer_end m) by (eapply X5; eauto; eapply nth_error_In; eauto). lia.
+    - split; [exact F5|]. split; [rewrite F1; lia|]. split.
+      + intros id _. rewrite Hgn. apply core_eq_refl.
+      + intros id _. rewrite Hgn. split; reflexivity.
+    - rewrite F8. destruct (m_lel m); discriminate.
+  Qed.
+
+  Lemma mark_deleted_ceq (l : list nat) (m : mdd) : ceq m (mark_deleted m l).
+  Proof.
+    unfold mark_deleted. apply ceq_fold. intros a x. apply ceq_upd_node.
+    intros n. apply core_eq_set_flags_nc; reflexivity.
+  Qed.
+
+  Lemma restrict_layer_inv (m : mdd) (l : list nat) :
+    Dinv m -> Xinv m -> ci_type inp <> Relaxed ->
+    Dinv (fst (restrict_layer inp m l)) /\ Xinv (fst (restrict_layer inp m l)) /\
+    stable m (fst (restrict_layer inp m l)) /\ m_next (fst (restrict_layer inp m l)) = m_next m /\
+    incl (snd (restrict_layer inp m l)) l.
+  Proof.
+    intros HD HX Ht. unfold restrict_layer. cbv zeta. simpl fst. simpl snd.
+    destruct (note_squash_inv m HD HX) as (N1 & N2 & N3 & N4 & N5 & N6); [congruence|].
+    set (m0 := note_squash inp m) in *.
+    pose proof (mark_deleted_ceq (skipn (ci_width inp) (sort_by (rank_order inp m0) l)) m0) as Hc.
+    split; [eapply Dg_ceq; eauto|]. split; [eapply Xinv_ceq; eauto|]. split; [|split].
+    - eapply stable_trans; [exact N3|apply ceq_stable; exact Hc].
+    - destruct Hc as (_ & Hn & _). rewrite Hn. exact N4.
+    - intros x Hx. apply In_firstn in Hx. apply sort_by_In in Hx. exact Hx.
+  Qed.
+
+  (* marking a (still open) node as merged *)
+  Lemma set_relaxed_inv (m : mdd) (id : nat) :
+    Dinv m -> Xinv m -> ci_type inp = Relaxed -> m_lel m <> None ->
+    m_layer_end m <= id -> id < length (m_nodes m) ->
+    let m' := upd_node m id (fun n => set_flags n (fl_set_relaxed (n_flags n) true)) in
+    Dinv m' /\ Xinv m' /\ stable m m' /\ m_next m' = m_next m /\
+    f_relaxed (n_flags (gn m' id)) = true.
+  Proof.
+    intros HD HX Ht Hlel Hle Hlt m'.
+    assert (Hlen : length (m_nodes m') = length (m_nodes m)) by (unfold m'; msimpl; apply upd_nth_length).
+    assert (Hsame : gn m' id = set_flags (gn m id) (fl_set_relaxed (n_flags (gn m id)) true))
+      by (unfold m'; apply gn_upd_same; exact Hlt).
+    assert (Hother : forall k, k <> id -> gn m' k = gn m k)
+      by (intros k Hk; unfold m'; apply gn_upd_other; congruence).
+    assert (Hsd : forall k, n_state (gn m' k) = n_state (gn m k) /\ n_vtop (gn m' k) = n_vtop (gn m k) /\
+                            n_depth (gn m' k) = n_depth (gn m k) /\ n_inb (gn m' k) = n_inb (gn m k)).
+    { intros k. destruct (Nat.eq_dec k id) as [->|Hne].
+      - rewrite Hsame. repeat split.
+      - rewrite Hother by exact Hne. repeat split. }
+    destruct HD as [H1 H2 H3 H4 H5].
+    split; [|split; [|split; [|split]]].
+    - split.
+      + intros k Hk _. rewrite Hlen in Hk. destruct (Nat.eq_dec k id) as [->|Hne].
+        * split.
+          -- destruct (Hsd id) as (_ & _ & _ & Hi). rewrite Hi. apply (H1 id Hlt I).
+          -- rewrite Hsame. nsimpl. discriminate.
+        * eapply node_ok_transfer.
+          -- apply H1; auto.
+          -- rewrite Hother by exact Hne. apply core_eq_refl.
+          -- intros x Hx. split; [exact Hx|]. split; [reflexivity|].
+             specialize (H3 x Hx). rewrite Hother by lia. apply core_eq_refl.
+      + destruct H2 as (r1 & r2 & r3 & r4 & r5). unfold root_ok. rewrite Hlen.
+        destruct (Hsd 0) as (q1 & q2 & q3 & _). rewrite q1, q2, q3. auto.
+      + exact H3.
+      + rewrite Hlen. exact H4.
+      + rewrite Hlen. exact H5.
+    - destruct HX as [X1 X2 X3 X4 X5 X6]. split.
+      + exact X1.
+      + intros Hnt. congruence.
+      + intros Hnone. exfalso. apply Hlel. exact Hnone.
+      + exact X4.
+      + exact X5.
+      + intros k ids x G1 G2 G3.
+        assert (x < m_layer_end m) by (eapply X5; eauto; eapply nth_error_In; eauto).
+        rewrite Hother by lia. eapply X6; eauto.
+    - split; [reflexivity|]. split; [lia|]. split.
+      + intros k Hk. rewrite Hother by lia. apply core_eq_refl.
+      + intros k _. destruct (Hsd k) as (q1 & _ & q3 & _). auto.
+    - reflexivity.
+    - rewrite Hsame. reflexivity.
+  Qed.
+
+  Lemma redirect_edges_inv (m : mdd) (merged : St) (merged_id drop_id : nat) :
+    Dinv m -> Xinv m -> drop_id < length (m_nodes m) ->
+    m_layer_end m <= merged_id -> merged_id < length (m_nodes m) ->
+    f_relaxed (n_flags (gn m merged_id)) = true ->
+    let m' := redirect_edges inp m merged merged_id drop_id in
+    Dinv m' /\ Xinv m' /\ stable m m' /\ m_next m' = m_next m /\
+    length (m_nodes m') = length (m_nodes m) /\ f_relaxed (n_flags (gn m' merged_id)) = true /\
+    length (m_edges m) <= length (m_edges m').
+  Proof.
+    intros HD HX Hdrop Hle Hlt Hrel. cbv zeta. unfold redirect_edges.
+    apply (fold_left_inv (fun m' =>
+      Dinv m' /\ Xinv m' /\ stable m m' /\ m_next m' = m_next m /\
+      length (m_nodes m') = length (m_nodes m) /\ f_relaxed (n_flags (gn m' merged_id)) = true /\
+      length (m_edges m) <= length (m_edges m'))).
+    - split; [exact HD|]. split; [exact HX|]. split; [apply stable_refl|]. auto.
+    - intros a eid Hin (A1 & A2 & A3 & A4 & A5 & A6 & A7). cbv zeta.
+      assert (Heid : eid < length (m_edges a)).
+      { destruct (D_nodes _ _ HD drop_id Hdrop I) as [Hinb _]. apply Hinb in Hin. lia. }
+      set (e := get_edge a eid).
+      set (rc := relax (ci_relax inp) (n_state (gn a (e_from e))) (n_state (gn a (e_to e))) merged (e_dec e) (e_cost e)).
+      set (a1 := add_log a (EvRelax (n_state (gn a (e_from e))) (n_state (gn a (e_to e))) merged (e_dec e) (e_cost e) rc)).
+      set (e' := {| e_from := e_from e; e_to := merged_id; e_dec := e_dec e; e_cost := rc |}).
+      assert (Hc : ceq a a1) by apply ceq_add_log.
+      assert (HD1 : Dinv a1) by (eapply Dg_ceq; eauto).
+      assert (HX1 : Xinv a1) by (eapply Xinv_ceq; eauto).
+      pose proof A3 as (s1 & s2 & s3 & s4).
+      assert (Hfrom : e_from e < m_layer_end a) by (apply (D_efrom _ _ A1); exact Heid).
+      assert (Hlea : m_layer_end a <= length (m_nodes a)) by apply (D_le _ _ A1).
+      split; [|split; [|split; [|split; [|split; [|split]]]]].
+      + apply append_edge_Dg; unfold e'; nsimpl.
+        * eapply Dg_weaken; [|exact HD1]. intros; exact I.
+        * exact Hfrom.
+        * change (m_layer_end a1) with (m_layer_end a). lia.
+        * change (length (m_nodes a1)) with (length (m_nodes a)). lia.
+        * apply (D_nodes _ _ HD1 merged_id); [change (length (m_nodes a1)) with (length (m_nodes a)); lia|exact I].
+        * intros Hr. change (gn a1 merged_id) with (gn a merged_id) in Hr. congruence.
+      + apply append_edge_Xinv; unfold e'; nsimpl; auto.
+        * change (m_layer_end a1) with (m_layer_end a). lia.
+        * change (length (m_nodes a1)) with (length (m_nodes a)). lia.
+        * change (length (m_nodes a1)) with (length (m_nodes a)). lia.
+      + eapply stable_trans; [exact A3|]. eapply stable_trans; [apply ceq_stable; exact Hc|].
+        apply append_edge_stable. unfold e'; nsimpl. change (m_layer_end a1) with (m_layer_end a). lia.
+      + exact A4.
+      + msimpl. rewrite upd_nth_length. exact A5.
+      + change (gn (append_edge inp a1 e') merged_id) with (gn (append_edge inp a1 e') (e_to e')). rewrite gn_append_same.
+        * cbv zeta. nsimpl. exact A6.
+        * unfold e'; nsimpl. change (length (m_nodes a1)) with (length (m_nodes a)). lia.
+      + msimpl. rewrite app_length. simpl. lia.
+  Qed.
+  Lemma relax_fold_inv (merged : St) (merged_id : nat) (mrg : list nat) (m : mdd) :
+    Dinv m -> Xinv m -> (forall x, In x mrg -> x < length (m_nodes m)) ->
+    m_layer_end m <= merged_id -> merged_id < length (m_nodes m) ->
+    f_relaxed (n_flags (gn m merged_id)) = true ->
+    let m' := fold_left (fun m drop_id =>
+                 let m := upd_node m drop_id (fun n => set_flags n (fl_set_deleted (n_flags n) true)) in
+                 redirect_edges inp m merged merged_id drop_id) mrg m in
+    Dinv m' /\ Xinv m' /\ stable m m' /\ m_next m' = m_next m /\ length (m_nodes m') = length (m_nodes m).
+  Proof.
+    intros HD HX Hmrg Hle Hlt Hrel. cbv zeta.
+    assert (G : let m' := fold_left (fun m drop_id =>
+                 let m := upd_node m drop_id (fun n => set_flags n (fl_set_deleted (n_flags n) true)) in
+                 redirect_edges inp m merged merged_id drop_id) mrg m in
+            Dinv m' /\ Xinv m' /\ stable m m' /\ m_next m' = m_next m /\
+            length (m_nodes m') = length (m_nodes m) /\ f_relaxed (n_flags (gn m' merged_id)) = true).
+    { cbv zeta. apply (fold_left_inv (fun m' =>
+        Dinv m' /\ Xinv m' /\ stable m m' /\ m_next m' = m_next m /\
+        length (m_nodes m') = length (m_nodes m) /\ f_relaxed (n_flags (gn m' merged_id)) = true)).
+      - split; [exact HD|]. split; [exact HX|]. split; [apply stable_refl|]. auto.
+      - intros a drop Hin (A1 & A2 & A3 & A4 & A5 & A6). cbv zeta.
+        set (a1 := upd_node a drop (fun n => set_flags n (fl_set_deleted (n_flags n) true))).
+        assert (Hc : ceq a a1).
+        { apply ceq_upd_node. intros n. apply core_eq_set_flags_nc; reflexivity. }
+        assert (HD1 : Dinv a1) by (eapply Dg_ceq; eauto).
+        assert (HX1 : Xinv a1) by (eapply Xinv_ceq; eauto).
+        pose proof A3 as (s1 & s2 & s3 & s4).
+        pose proof Hc as ((c1 & c2 & c3 & c4) & c5 & c6 & _).
+        destruct (redirect_edges_inv a1 merged merged_id drop HD1 HX1) as (B1 & B2 & B3 & B4 & B5 & B6 & B7).
+        + rewrite c3, A5. apply Hmrg; exact Hin.
+        + rewrite c6, s1. exact Hle.
+        + rewrite c3, A5. exact Hlt.
+        + destruct (c4 merged_id) as (_ & _ & _ & _ & _ & q & _). rewrite <- q. exact A6.
+        + split; [exact B1|]. split; [exact B2|]. split; [|split; [|split]].
+          * eapply stable_trans; [exact A3|]. eapply stable_trans; [apply ceq_stable; exact Hc|exact B3].
+          * rewrite B4, c5. exact A4.
+          * rewrite B5, c3. exact A5.
+          * exact B6. }
+    cbv zeta in G. destruct G as (G1 & G2 & G3 & G4 & G5 & G6). auto.
+  Qed.
+
+  Lemma skipn_nonempty {A} n (l : list A) : n < length l -> skipn n l <> [].
+  Proof. intros H E. pose proof (skipn_length n l) as HL. rewrite E in HL. simpl in HL. lia. Qed.
+  Lemma hd_In {A} (d : A) l : l <> [] -> In (hd d l) l.
+  Proof. destruct l; [congruence|simpl; auto]. Qed.
+
+  Lemma relax_layer_inv (m : mdd) (l : list nat) (d : nat) :
+    Dinv m -> Xinv m -> ci_type inp = Relaxed -> m_layers m <> [] ->
+    layer_ok m l d -> ci_width inp < length l ->
+    Dinv (fst (relax_layer st_eqb inp m l)) /\ Xinv (fst (relax_layer st_eqb inp m l)) /\
+    stable m (fst (relax_layer st_eqb inp m l)) /\
+    m_next (fst (relax_layer st_eqb inp m l)) = m_next m /\
+    layer_ok (fst (relax_layer st_eqb inp m l)) (snd (relax_layer st_eqb inp m l)) d.
+  Proof.
+    intros HD HX Ht Hly Hl Hw. unfold relax_layer. cbv zeta.
+    destruct (note_squash_inv m HD HX) as (N1 & N2 & N3 & N4 & N5 & N6); [auto|].
+    set (m0 := note_squash inp m) in *.
+    set (sorted := sort_by (rank_order inp m0) l).
+    destruct (ci_width inp) as [|w1] eqn:Ew.
+    - simpl fst. simpl snd.
+      assert (Hc : ceq m0 (set_crash m0)) by apply ceq_set_crash.
+      split; [eapply Dg_ceq; eauto|]. split; [eapply Xinv_ceq; eauto|].
+      assert (Hst : stable m (set_crash m0)) by (eapply stable_trans; [exact N3|apply ceq_stable; exact Hc]).
+      split; [exact Hst|]. split; [exact N4|].
+      eapply layer_ok_stable; eauto. apply incl_refl.
+    - set (keep := firstn w1 sorted).
+      set (mrg := skipn w1 sorted).
+      set (mstates := map (fun id => n_state (gn m0 id)) mrg).
+      set (merged := merge (ci_relax inp) mstates).
+      set (m1 := add_log m0 (EvMerge mstates merged)).
+      Show.
+  Abort.
+(*PART8*)
 End Exact.
